@@ -17,7 +17,7 @@ import (
 // ---------------------------------------------------------------- C13: reflog expiry
 
 // A table of a C13 stack: per ref (a, b) one of: 0 nothing, 1 entry at time A, 2 entry at time B,
-// 3 tombstone for the ref's entry in the previous table.
+// 3 tombstone for the ref's entry in the previous table, 4 entry at an update index above the table's limits.
 type case13 struct {
 	Tables [][2]int
 	Expiry [3]uint64 // Time, MaxUpdateIndex, MinUpdateIndex
@@ -42,6 +42,9 @@ func build13(c *case13) (txns []hx.Txn) {
 				x.Logs = append(x.Logs, hx.LogOp{Name: name, Msg: fmt.Sprintf("%s@%d", name, t), Time: tb, Old: "o", New: fmt.Sprintf("n%d", t)})
 			case 3:
 				x.Logs = append(x.Logs, hx.LogOp{Name: name, Deletion: true, UI: uint64(t - 1)})
+			case 4:
+				// an entry whose update index lies outside its table's own limits (the writer does not tie log indices to the limits)
+				x.Logs = append(x.Logs, hx.LogOp{Name: name, UI: uint64(t + 3), Msg: fmt.Sprintf("%s@%d+3", name, t), Time: ta, Old: "o", New: fmt.Sprintf("m%d", t)})
 			}
 		}
 		txns = append(txns, x)
@@ -140,7 +143,7 @@ func runC13(tier string, wi, wn int, res *result) {
 	quick := tier != "thorough"
 	bOpts := []int{0, 1}
 	if !quick {
-		bOpts = []int{0, 1, 2, 3}
+		bOpts = []int{0, 1, 2, 3, 4}
 	}
 	var stacks [][][2]int
 	var rec func(cur [][2]int)
@@ -151,15 +154,15 @@ func runC13(tier string, wi, wn int, res *result) {
 		if len(cur) == 3 {
 			return
 		}
-		for a := 0; a <= 3; a++ {
+		for a := 0; a <= 4; a++ {
 			for _, b := range bOpts {
 				if len(cur) == 0 && (a == 3 || b == 3) {
 					continue // nothing to tombstone below the first table
 				}
-				if a == 3 && (cur[len(cur)-1][0] == 0 || cur[len(cur)-1][0] == 3) {
+				if a == 3 && (cur[len(cur)-1][0] == 0 || cur[len(cur)-1][0] >= 3) {
 					continue // tombstone only for an existing entry
 				}
-				if b == 3 && (cur[len(cur)-1][1] == 0 || cur[len(cur)-1][1] == 3) {
+				if b == 3 && (cur[len(cur)-1][1] == 0 || cur[len(cur)-1][1] >= 3) {
 					continue
 				}
 				if len(cur) > 0 && a == 0 && b == 0 {
@@ -171,7 +174,7 @@ func runC13(tier string, wi, wn int, res *result) {
 	}
 	rec(nil)
 	timesL := []uint64{0, 5, 10, 15, 20, 25, 30, 35, 40}
-	idxL := []uint64{0, 1, 2, 3, 4}
+	idxL := []uint64{0, 1, 2, 3, 4, 7}
 	shas := []bool{false}
 	if !quick {
 		shas = []bool{false, true}
